@@ -257,7 +257,7 @@ pub fn qw_main(rest: &[String]) -> i32 {
 // ---------------------------------------------------------------------------------------------------------------------
 // C12 with several batches in flight (spec/QWNet.tla): real BatchMaker -> ReliableSender -> (harness peers) -> QuorumWaiter
 
-async fn run_qwnet(beh: &[Value], stakes: &[u32], recs: &mut Vec<Value>) {
+async fn run_qwnet(beh: &[Value], stakes: &[u32], down: &[usize], recs: &mut Vec<Value>) {
     use futures::SinkExt;
     let n = stakes.len();
     let mut cfg = RigCfg::new(n);
@@ -265,6 +265,11 @@ async fn run_qwnet(beh: &[Value], stakes: &[u32], recs: &mut Vec<Value>) {
     cfg.real = vec![false; n];
     let rig = Rig::new(cfg);
     simnet::set_current(0);
+    // peers that refuse connections: the reliable sender keeps what it has for them in its buffer and retries with back-off
+    let refused: Vec<std::net::SocketAddr> = down.iter().map(|p| crate::rig::addr(*p, crate::rig::Port::Mempool)).collect();
+    if !refused.is_empty() {
+        simnet::set_refuse(Box::new(move |_, a| refused.contains(&a)));
+    }
     let peers: Vec<_> = (1..n).map(|i| (rig.keys[i].0, crate::rig::addr(i, crate::rig::Port::Mempool))).collect();
     let (tx_transaction, rx_transaction) = channel(1000);
     let (tx_message, rx_message) = channel::<QuorumWaiterMessage>(1000);
@@ -330,6 +335,7 @@ async fn run_qwnet(beh: &[Value], stakes: &[u32], recs: &mut Vec<Value>) {
 /// hsverif qwnet in=<schedules> out=<trace> stakes=me,p1,p2,..
 pub fn qwnet_main(rest: &[String]) -> i32 {
     let a = Args::parse(rest);
+    let down = a.list_usize("down");
     let input = a.str("in", "schedules.ndjson");
     let out = a.str("out", "trace.ndjson");
     let stakes = a.list_u32("stakes").unwrap_or_else(|| vec![1, 1, 1, 1]);
@@ -340,10 +346,11 @@ pub fn qwnet_main(rest: &[String]) -> i32 {
     for beh in read_schedules(&input, a.usize("limit", usize::MAX)) {
         let rt = tokio::runtime::Builder::new_current_thread().enable_all().start_paused(true).build().unwrap();
         let mut recs = Vec::new();
-        let r = std::panic::catch_unwind(std::panic::AssertUnwindSafe(|| rt.block_on(run_qwnet(&beh, &stakes, &mut recs))));
+        let r = std::panic::catch_unwind(std::panic::AssertUnwindSafe(|| rt.block_on(run_qwnet(&beh, &stakes, &down, &mut recs))));
         let _ = r;
+        simnet::clear_refuse();
         if first {
-            w.write(&json!({"t":"reset","stakes":stakes}));
+            w.write(&json!({"t":"reset","stakes":stakes,"down":down}));
             first = false;
         } else {
             w.write(&json!({"t":"reset"}));
